@@ -104,14 +104,14 @@ def gen_spec(rng):
     nlay = int(rng.integers(1, 3))
     nz = int(rng.integers(1, 4))
     return {
-        'nx': nx, 'ny': ny, 'nt': int(rng.integers(1, 4)),
+        'nx': nx, 'ny': ny, 'nt': int(rng.integers(1, 6)),
         'sfckeys': ['PRSS', 'T02M', 'U10M'][:nsfc],
         'laykeys': ['TEMP', 'UWND'][:nlay],
         'levels': [1.0] + [round(0.95 - 0.1 * i, 3) for i in range(nz)],
         'year': int(rng.integers(1, 30)), 'month': int(rng.integers(1, 13)),
         'day': int(rng.integers(1, 28)), 'hour': int(rng.choice([0, 6, 12,
                                                                 18])),
-        'dhour': int(rng.choice([1, 3, 6])),
+        'dhour': int(rng.choice([1, 3, 6, 12, 24])),
         'seed': int(rng.integers(1 << 30)),
         'dlat': 1.0, 'dlon': 1.0, 'lat0': 30.0, 'lon0': -100.0,
     }
